@@ -218,13 +218,14 @@ Print Assumptions C17_two_section_lookup_refuted.
    ANY path of the graph from the read to the write (or that nobody else writes the field at all).
 
    Generic, proved once: if `no_unlock_between m g r w` then every walk of the graph from r that ends at w
+   without coming back to r (the thread's way from its LAST read at r to the write)
    executes no unlock of m, and a thread holding m at r holds it on arrival at w.  With write isolation
    (C17_sections_write_isolated: while a thread holds the write guard nobody else writes the field) the field
    still has the value read at r when w is executed: the operation's read and write are ONE step of a sequential
    order. *)
 Theorem C17_guard_kept_between :
   forall (m : mutex) (g : graph) (r w : nat), no_unlock_between m g r w = true ->
-    forall l L, is_path g r l -> fst (walk m g false r l) = w ->
+    forall l L, is_path g r l -> ~ In r l -> fst (walk m g false r l) = w ->
       holds m L = true ->
       holds m (locks_along g L r l) = true /\
       (forall x, In x (removelast (r :: l)) -> unlocks_at m g x = false).
@@ -366,10 +367,19 @@ Definition rmw_graph : graph :=
     {| n_instr := IAcc 1 true; n_succ := [3%nat; 1%nat]; n_owner := 0 |};
     {| n_instr := IUnlock 1 true; n_succ := []; n_owner := 0 |} ].
 
+(* a loop that locks, reads, writes and unlocks once per iteration: atomic per iteration *)
+Definition rmw_loop_graph : graph :=
+  [ {| n_instr := ILock 1 true; n_succ := [1%nat]; n_owner := 0 |};
+    {| n_instr := IAcc 1 false; n_succ := [2%nat]; n_owner := 0 |};
+    {| n_instr := IAcc 1 true; n_succ := [3%nat]; n_owner := 0 |};
+    {| n_instr := IUnlock 1 true; n_succ := [0%nat; 4%nat]; n_owner := 0 |};
+    {| n_instr := ISkip; n_succ := []; n_owner := 0 |} ].
+
 Example C17_atomic_rejects_read_copy_swap :
   analysis_ok (fun _ => false) (fun _ => false) rcu_graph [0%nat] = true /\
   atomic_ok (fun _ => false) (fun _ => false) rcu_graph [0%nat] [(1%nat, 4%nat)] = false /\
-  atomic_ok (fun _ => false) (fun _ => false) rmw_graph [0%nat] [(1%nat, 2%nat)] = true.
+  atomic_ok (fun _ => false) (fun _ => false) rmw_graph [0%nat] [(1%nat, 2%nat)] = true /\
+  atomic_ok (fun _ => false) (fun _ => false) rmw_loop_graph [0%nat] [(1%nat, 2%nat)] = true.
 Proof. vm_compute. repeat split; reflexivity. Qed.
 
 (* the tree has derived pairs (so C17_tree_atomic_ok speaks about something) *)
